@@ -1671,11 +1671,30 @@ impl<'arena> PrettyFormatter<'arena> {
             && !self.forces_break(BoundaryIntent::between(parameter, nested).resolve(self.arena))
     }
 
+    /// A singleton group that minimal parentheses elide is transparent to a
+    /// scope telescope: otherwise the group would disappear in one run and
+    /// the scopes it separated would only merge in the next.
+    fn through_elided_group(&self, term: TermId) -> TermId {
+        match &self.arena.terms[&term] {
+            | Term::Paren(Paren(terms)) => match terms.as_slice() {
+                | [inner]
+                    if self.should_elide_parentheses(term.into(), (*inner).into())
+                        && self.arena.trivia.leading_comments((*inner).into()).is_empty() =>
+                {
+                    self.through_elided_group(*inner)
+                }
+                | _ => term,
+            },
+            | _ => term,
+        }
+    }
+
     fn scoped_telescope(&self, root: TermId, form: ScopedForm) -> ScopeTelescope<CoPatId> {
         let layers = std::iter::successors(Some(root), |current| {
             let (parameter, nested) = form.split(&self.arena.terms[current])?;
-            form.split(&self.arena.terms[&nested])?;
-            self.scope_boundary_allows_merging(parameter, nested).then_some(nested)
+            let scope = self.through_elided_group(nested);
+            form.split(&self.arena.terms[&scope])?;
+            self.scope_boundary_allows_merging(parameter, nested).then_some(scope)
         })
         .map(|scope| {
             form.split(&self.arena.terms[&scope])
@@ -1717,7 +1736,8 @@ impl<'arena> PrettyFormatter<'arena> {
     ) -> ScopeTelescope<&'arena ExistentialParameter> {
         let layers = std::iter::successors(Some(first), |current| {
             let parameter = current.parameters.last()?;
-            let Term::Exists(nested) = &self.arena.terms[&current.body] else {
+            let Term::Exists(nested) = &self.arena.terms[&self.through_elided_group(current.body)]
+            else {
                 return None;
             };
             self.scope_boundary_allows_merging(parameter.binder, current.body).then_some(nested)
